@@ -172,6 +172,15 @@ func vBigEq(a, b *big.Int) bool {
 func vBigLess(a, b *big.Int) bool { return a.Cmp(b) < 0 }
 
 func vDump(name string, v interface{}) {}
+// vMentions / vLeaks: information-flow questions answered on the symbolic terms
+// by the engine; natively approximated by a substring test on the concrete bytes.
+func vMentions(out []byte, secret []byte) bool { return len(secret) > 0 && bytes.Contains(out, secret) }
+func vLeaks(out []byte, secret []byte) bool    { return len(secret) > 0 && bytes.Contains(out, secret) }
+
+// vHeapMentions: is any value reachable from root computed from the secret's symbols
+// (engine: syntactic dependence; natively: occurrence of the bytes)?
+func vHeapMentions(root interface{}, secret []byte) bool { return vHeapHolds(root, secret) }
+
 func vSmallGroup(expBits int) {}
 func vBigStrip(n int)         {}
 func vOrderHint(on int)       {}
